@@ -205,6 +205,12 @@ class Session:
             time.sleep(0.002)
         if self.both_communicating():
             return True
+        rx = [t for t in (getattr(self.hp, "_rx_thread", None), getattr(self.ep, "_rx_thread", None)) if t is not None and t.is_alive()]
+        half_closed = self.hp.link_up != self.ep.link_up
+        if half_closed and rx and stuck.blocked_forever(rx, watch=1.0, samples=6):
+            # one side never finished the close sequence of a connection the other side has left
+            self.violation(f"close-sequence-blocked-forever:{where}", stacks=stuck.stacks(6), link_trace=self.link.trace[-6:])
+            return False
         self.ctx.unsure(f"watchdog: not communicating after 20 s ({where}) but the pair never became idle: {self.wit(link_trace=self.link.trace[-8:])}")
         self.bad = True
         return False
@@ -224,7 +230,10 @@ class Session:
         th = threading.Thread(target=run, daemon=True, name=f"harness-call-{name}")
         th.start()
         if not done.wait(timeout):
-            if stuck.blocked_forever([th], watch=0.6):
+            # disable() polls for the end of the connection's receiver thread (the harness connection mirrors the library's
+            # busy-wait): the call is blocked forever if that thread and everybody else are parked in untimed waits for good
+            rx = [t for t in (getattr(self.hp, "_rx_thread", None), getattr(self.ep, "_rx_thread", None)) if t is not None and t.is_alive()]
+            if stuck.blocked_forever([th], watch=0.6) or (rx and stuck.blocked_forever(rx, watch=1.0, samples=6)):
                 self.violation(f"call-blocked-forever:{name}", stacks=stuck.stacks(6))
             else:
                 import sys
